@@ -7,10 +7,20 @@ use subjects::{Registry, Subject};
 use vcore::evidence::{Acc, Finish};
 use vcore::{resolve, Ctx, Ov, Path, Rng};
 
+/// Report digest of this check: as everywhere, plus the message text of `Unexpected` reports (round 8) - a metamorphic
+/// comparison needs no model of the wording, and no built-in message renders an object, so the text may not depend on
+/// the member order either.
+fn digest(k: &monitor::RKind) -> String {
+    match k {
+        monitor::RKind::Unexpected { msg } => format!("unexpected:{msg}"),
+        k => obs_digest(k),
+    }
+}
+
 fn report_multiset(run: &Run) -> BTreeMap<(String, Path), u32> {
     let mut m = BTreeMap::new();
     for r in run.reports() {
-        *m.entry((obs_digest(&r.kind), r.loc.clone())).or_insert(0) += 1;
+        *m.entry((digest(&r.kind), r.loc.clone())).or_insert(0) += 1;
     }
     m
 }
@@ -60,7 +70,7 @@ fn compare(acc: &mut Acc, reg: &Registry, s: &dyn Subject, base: &Ov, base_run: 
         if let Outcome::Err { holding, .. } = &run.outcome {
             for h in holding {
                 if let Some(rep) = by_id.get(h) {
-                    *m.entry((obs_digest(&rep.kind), rep.loc.clone())).or_insert(0) += 1;
+                    *m.entry((digest(&rep.kind), rep.loc.clone())).or_insert(0) += 1;
                 }
             }
         }
@@ -74,7 +84,7 @@ fn compare(acc: &mut Acc, reg: &Registry, s: &dyn Subject, base: &Ov, base_run: 
         for mg in run.merges() {
             for h in &mg.other_holding {
                 if let Some(rep) = by_id.get(h) {
-                    *m.entry((obs_digest(&rep.kind), rep.loc.clone(), mg.loc.clone())).or_insert(0) += 1;
+                    *m.entry((digest(&rep.kind), rep.loc.clone(), mg.loc.clone())).or_insert(0) += 1;
                 }
             }
         }
@@ -172,7 +182,7 @@ pub fn run(ctx: &Ctx, reg: &Registry) -> i32 {
         acc,
         Finish {
             level: "exploration",
-            rule: "metamorphic, no reference model: for every generated payload (all subjects, faulty and fault-free) and every object in it with >= 2 members, ALL permutations of its members when it has <= 5 of them (24 random ones beyond), one object at a time, plus joint random shuffles of all objects at every depth; presented through the order preserving instrumented source under the keep-going script. Oracle: equal Ok projections, equal multisets of (report digest, location) received by the error type, equal multisets held by the returned error, and equal multisets of (report, hand-over location) pairs. Non-trivial = every permuted run; distinct = (subject, trace shape, permuted payload).".into(),
+            rule: "metamorphic, no reference model: for every generated payload (all subjects, faulty and fault-free) and every object in it with >= 2 members, ALL permutations of its members when it has <= 5 of them (24 random ones beyond), one object at a time, plus joint random shuffles of all objects at every depth; presented through the order preserving instrumented source under the keep-going script. Oracle: equal Ok projections, equal multisets of (report digest incl. the message text of Unexpected reports, location) received by the error type, equal multisets held by the returned error, and equal multisets of (report, hand-over location) pairs. Non-trivial = every permuted run; distinct = (subject, trace shape, permuted payload).".into(),
             exhaustive: false,
             assumptions: vec!["payload keys are unique and map keys parse to distinct values (otherwise last-wins makes order legitimately observable)".into()],
         },
